@@ -122,3 +122,44 @@ pub(crate) fn p_try_parse_response<const N: usize>(input: &[u8]) -> Result<Optio
         _ => Err(Error::HttpParseFail(String::new())),
     }
 }
+
+// ---------------------------------------------------------------- constant-outcome script stubs
+// The scripted outcome above is selected through statics, which CBMC does not constant-fold: every
+// outcome class is then explored in every cell (including the expensive Complete one). The stubs
+// below fix the outcome CLASS in code (one stub per class); only the status code stays in a static.
+
+#[inline(always)]
+fn script_partial<'h, 'b>(r: &mut httparse::Response<'h, 'b>, version: Option<u8>, with_code: bool) -> httparse::Result<usize> {
+    S_CALLS.fetch_add(1, Ordering::Relaxed);
+    r.version = version;
+    r.code = if with_code { Some(S_CODE.load(Ordering::Relaxed) as u16) } else { None };
+    r.reason = if with_code { Some("") } else { None };
+    Ok(httparse::Status::Partial)
+}
+
+/// httparse on a prefix that ends inside (or before) the version token.
+pub(crate) fn hs_partial_nothing<'h, 'b>(r: &mut httparse::Response<'h, 'b>, _buf: &'b [u8]) -> httparse::Result<usize>
+where
+    'h: 'h,
+    'b: 'b,
+{
+    script_partial(r, None, false)
+}
+
+/// httparse on a prefix that ends after the version token.
+pub(crate) fn hs_partial_version<'h, 'b>(r: &mut httparse::Response<'h, 'b>, _buf: &'b [u8]) -> httparse::Result<usize>
+where
+    'h: 'h,
+    'b: 'b,
+{
+    script_partial(r, Some(1), false)
+}
+
+/// httparse on a prefix that ends after the status line (no field, no empty line yet).
+pub(crate) fn hs_partial_status<'h, 'b>(r: &mut httparse::Response<'h, 'b>, _buf: &'b [u8]) -> httparse::Result<usize>
+where
+    'h: 'h,
+    'b: 'b,
+{
+    script_partial(r, Some(1), true)
+}
